@@ -7,7 +7,11 @@ WT=/tmp/try_$$
 git -C /repo worktree add --detach -q $WT HEAD
 ( cd $WT && git apply "$PATCH" ) || { echo "patch does not apply"; git -C /repo worktree remove --force $WT; exit 2; }
 cd /verif
+# the evidence file of the registered check must come from /repo itself: keep it aside while the check runs on the patched tree
+cp evidence/$PROP.json /tmp/try_$$_evidence.json 2>/dev/null
 RC=0; VERIF_REPO=$WT ./check $PROP --tier $TIER || RC=$?
+cp evidence/$PROP.json /verif/.work/mutlogs/last_try_$PROP.evidence.json 2>/dev/null
+mv /tmp/try_$$_evidence.json evidence/$PROP.json 2>/dev/null
 ALT=/verif/.build/alt_$(python3 -c "import hashlib,sys; print(hashlib.sha256('$WT'.encode()).hexdigest()[:10])")
 rm -rf "$ALT"
 git -C /repo worktree remove --force $WT
